@@ -23,6 +23,12 @@ INFO = {
  "C16b": ("extract_exch_key tests H1(ID||02) == 0 before adding ke instead of testing t1 = H1 + ke", "ke = N - H1(ID||02): extraction returns a key with de = infinity instead of failing"),
  "C18b": ("EEA IV byte 4 masked with 0x7c: BEARER's top bit dropped", "BEARER >= 16 (keystream of BEARER - 16 is used)"),
  "C19b": ("to_byte_be takes the compressed tag from the parity of the Jacobian y instead of the affine y", "compress = true on a point with Z != 1 (every derived public key, every C1): wrong tag for about half of them"),
+ "C02b": ("SM4 key expansion substitutes bytes in a `while v != 0 { ..; v >>= 8 }` loop: leading zero bytes of the T' input skip the S-box", "a key whose schedule produces a T' input with a zero top byte (about 12% of keys; not the test key); decrypt still inverts encrypt"),
+ "C05b": ("kdf counter `ct = (ct + 1) & 0xff`", "klen > 8160 bytes (block 256 is hashed with counter 0)"),
+ "C06b": ("decrypt validates the shared point [d]C1 (is_valid accepts infinity) instead of C1", "an off-curve C1 of small order dividing d, e.g. (x, 0) with an even private key: forged plaintext accepted"),
+ "C09b": ("verify_sign range check `h >= N` became `h > N`", "h = N: reaches the assert in Fp12::pow - a crash instead of an error"),
+ "C17b": ("exch_step_2a skips the on-curve check of R_B when its x coordinate is 0", "an off-curve R_B with x = 0, e.g. (0, 1)"),
+ "C20b": ("CBC decrypt pad check `> 0x10` removed (only `== 0` left)", "a 16-byte ciphertext whose last decrypted byte is 17..255: subtraction overflow panic"),
  "C07b": ("CBC decrypt bounds the PKCS#7 pad byte by the ciphertext length instead of the block size", "a ciphertext of two or more blocks whose last decrypted byte is 17..min(255, length): accepted and truncated instead of an error"),
  "C08b": ("ZUC S-box S0[0x17] changed from 0xa5 to 0xa6", "a byte 0x17 entering S0 inside F (the EEA/EIA vectors in the crate never do; the three published keystream vectors do)"),
  "C10b": ("SM9 decrypt compares only min(|C2|, 32) bytes of C3", "a message shorter than 32 bytes and a C3 modified at a byte index >= |M|"),
